@@ -69,7 +69,9 @@ fn main() {
         if quick {
             // units: 1..=9 scancode states, 10..=25 frame chunks, 26..=36 clear lengths, 37..=66 layout objects, 67..=130 modifier masks
             let u = *unit;
-            return u <= 9 || u == 10 + qseed % 16 || u == 26 + qseed % 11 || u == 37 + qseed % 30 || u == 67 + (qseed * 7 + 63) % 64;
+            // all scancode units, one frame chunk, one clear length, every layout in one (seeded) form, one modifier mask
+            let layout_unit = u >= 37 && u <= 66 && (u - 37) % 3 == (qseed + (u - 37) / 3) % 3;
+            return u <= 9 || u == 10 + qseed % 16 || u == 26 + qseed % 11 || layout_unit || u == 67 + (qseed * 7 + 63) % 64;
         }
         (*unit / stride.max(1)) % nshards == shard && *unit % stride.max(1) == 0
     };
@@ -164,7 +166,7 @@ fn main() {
                 let lay = layout_obj(li, form);
                 for k in keys.iter() {
                     for mode in [HandleControl::MapLettersToUnicode, HandleControl::Ignore] {
-                        for m in class_reps.iter().step_by(if quick { 5 } else { 1 }) {
+                        for m in class_reps.iter().step_by(if quick { 17 } else { 1 }) {
                             let d = lay.map_keycode(*k, &mods_from_bits(*m), mode);
                             mix(&mut sum, enc_dk(&Some(d)));
                             calls += 1;
